@@ -18,6 +18,8 @@ func init() {
 }
 
 func runC09(c *Ctx) {
+	defer checkIntrospectDispatch(c, "C09.R6")
+	defer checkConfigGetters(c, "C09.R5", "GetDisableRefreshTokenValidation", "GetScopeStrategy")
 	c09R1(c)
 	c09R2R3(c)
 	c09R4(c)
